@@ -1,12 +1,15 @@
 // Package c17: the HAR log (har.Logger) over arbitrary histories of RecordRequest,
-// RecordResponse, Export, ExportAndReset and Reset — sequential (step-by-step and exhaustive
-// `seq` words, both compared with the Lean model) and concurrent (oracle only: linearisability
-// against the property's own reading of the log, see conc.go).
+// RecordResponse, Export, ExportAndReset, Reset and SetOption, with messages that can or cannot
+// be logged (msg.go) — sequential (step-by-step and exhaustive `seq` words, both compared with
+// the Lean model) and concurrent (linearisability against the property's own reading of the log,
+// the linearisation found is then replayed by the Lean model; see conc.go).
 package c17
 
 import (
+	"encoding/json"
 	"fmt"
 	"net/http"
+	"net/http/httptest"
 	"strconv"
 	"strings"
 
@@ -21,9 +24,12 @@ func init() { core.Register(P{}) }
 
 func (P) ID() string { return "C17" }
 func (P) Rule() string {
-	return "case = (a) one history of 5-400 ops (req/res over IDs a-e, export, export-and-reset, reset; per-case op weights) run step by step " +
-		"on one har.Logger, or (b) a block of `seq` words: EVERY word over the 9-letter alphabet {req a,b,c; res a,b,c; export; export-and-reset; reset} " +
-		"up to length 5 (quick) / 7 (thorough), each run on a fresh Logger, or (c) a concurrent run (8 goroutines) checked for linearisability; " +
+	return "case = (a) one history of 5-400 ops (req/res over IDs a-h/k0-k39 with plain or faulty messages: framed / unframed bodies, content types, body read errors, undecodable bodies; " +
+		"SetOption calls of the six logging options; export, export-and-reset, reset; per-case op weights) run step by step on one har.Logger, or " +
+		"(b) a block of `seq` words: EVERY word over the 9-letter alphabet {req a,b,c; res a,b,c; export; export-and-reset; reset} up to length 5 (quick) / 7 (thorough), every word with a failing call " +
+		"over the 15-letter alphabet (+ failing response a,b,c; failing request a,b,c) up to length 4 / 5 and, up to renaming of the IDs, of length 5 / 6, each run on a fresh Logger, or " +
+		"(c) a concurrent run (2-8 goroutines; random programs over own/shared IDs with slow and failing bodies, or duplicate storms: every goroutine calls about the same ID, held in its body read " +
+		"until all are in flight) checked for linearisability, the linearisation replayed by the model; " +
 		"distinct by hash of the op list; non-trivial when some export-and-reset returned at least one completed entry while keeping at least one pending entry"
 }
 
@@ -59,18 +65,9 @@ func showEnts(es []ent) string {
 
 const urlPrefix = "http://h.test/"
 
-func mkReq(id string, tag int) *http.Request {
-	req, err := http.NewRequest("GET", urlPrefix+id+"/"+strconv.Itoa(tag), nil)
-	if err != nil {
-		panic(err)
-	}
-	return req
-}
+func mkReq(id string, tag int) *http.Request { return mkReqMsg(id, tag, plainMsg, nil, nil).req }
 
-func mkRes(tag int) *http.Response {
-	return &http.Response{StatusCode: 1000 + tag, Proto: "HTTP/1.1", ProtoMajor: 1, ProtoMinor: 1,
-		Header: http.Header{}, Body: http.NoBody}
-}
+func mkRes(tag int) *http.Response { return mkResMsg(tag, plainMsg, nil, nil).res }
 
 // readEntry reads what the harness put into the request URL / response status back out of an
 // exported entry. withRes=false leaves the Response field alone (concurrent Export, see conc.go).
@@ -189,6 +186,79 @@ type sess struct {
 	t   int
 	nt  bool // saw a non-trivial export-and-reset
 	cnt bool // bump distribution counters
+	via bool // the next export / export-and-reset / reset goes through the HTTP handlers
+}
+
+// through the handlers of har_handlers.go: GET on the export handler, DELETE (?return=true) on the
+// reset handler; the JSON body is decoded back into a har.HAR.
+func (s *sess) serve(h http.Handler, method, target string, wantBody bool) (*har.HAR, string) {
+	rw := httptest.NewRecorder()
+	h.ServeHTTP(rw, httptest.NewRequest(method, target, nil))
+	if !wantBody {
+		if rw.Code != http.StatusNoContent {
+			return nil, fmt.Sprintf("reset handler answered %d", rw.Code)
+		}
+		return nil, ""
+	}
+	if rw.Code != http.StatusOK {
+		return nil, fmt.Sprintf("handler answered %d", rw.Code)
+	}
+	out := &har.HAR{}
+	if err := json.Unmarshal(rw.Body.Bytes(), out); err != nil {
+		return nil, "handler body is not a HAR log: " + err.Error()
+	}
+	return out, ""
+}
+
+func (s *sess) doExport() (*har.HAR, string) {
+	if s.via {
+		s.count("handler:export")
+		return s.serve(har.NewExportHandler(s.l), "GET", "http://martian.proxy/logs", true)
+	}
+	return s.l.Export(), ""
+}
+
+func (s *sess) doExportAndReset() (*har.HAR, string) {
+	if s.via {
+		s.count("handler:export-and-reset")
+		return s.serve(har.NewResetHandler(s.l), "DELETE", "http://martian.proxy/logs/reset?return=true", true)
+	}
+	return s.l.ExportAndReset(), ""
+}
+
+func (s *sess) doReset() string {
+	if s.via {
+		s.count("handler:reset")
+		_, bad := s.serve(har.NewResetHandler(s.l), "POST", "http://martian.proxy/logs/reset", false)
+		return bad
+	}
+	s.l.Reset()
+	return ""
+}
+
+// refused: requests the handlers must turn down without touching the log (wrong method, a
+// `return` parameter that is not a boolean).
+func (s *sess) refused(which string) core.Result {
+	var h http.Handler
+	method, target, want := "PUT", "http://martian.proxy/logs", http.StatusMethodNotAllowed
+	switch which {
+	case "export":
+		h = har.NewExportHandler(s.l)
+	case "reset":
+		h = har.NewResetHandler(s.l)
+	case "param":
+		h, method, target, want = har.NewResetHandler(s.l), "DELETE", "http://martian.proxy/logs/reset?return=maybe", http.StatusBadRequest
+	default:
+		return core.Result{Impl: "bad-op", SkipModel: true}
+	}
+	rw := httptest.NewRecorder()
+	h.ServeHTTP(rw, httptest.NewRequest(method, target, nil))
+	s.count("handler:refused-" + which)
+	if rw.Code != want {
+		return core.Result{Impl: "refused " + strconv.Itoa(rw.Code), SkipModel: true, Sig: "handler:not-refused",
+			Fail: fmt.Sprintf("%s %s answered %d, want %d", method, target, rw.Code, want)}
+	}
+	return core.Result{Impl: "refused", SkipModel: true}
 }
 
 func newSess(cnt bool) *sess { return &sess{l: har.NewLogger(), g: newLedger(), cnt: cnt} }
@@ -199,35 +269,93 @@ func (s *sess) count(k string) {
 	}
 }
 
+// setOpt applies one SetOption call. which = post | body; form = all 0|1, only <cts>, skip <cts>.
+func setOpt(l *har.Logger, which, form string, cts []string) bool {
+	var o har.Option
+	switch which + " " + form {
+	case "post all0":
+		o = har.PostDataLogging(false)
+	case "post all1":
+		o = har.PostDataLogging(true)
+	case "post only":
+		o = har.PostDataLoggingForContentTypes(cts...)
+	case "post skip":
+		o = har.SkipPostDataLoggingForContentTypes(cts...)
+	case "body all0":
+		o = har.BodyLogging(false)
+	case "body all1":
+		o = har.BodyLogging(true)
+	case "body only":
+		o = har.BodyLoggingForContentTypes(cts...)
+	case "body skip":
+		o = har.SkipBodyLoggingForContentTypes(cts...)
+	default:
+		return false
+	}
+	l.SetOption(o)
+	return true
+}
+
 // apply runs one operation on the real Logger; returns the canonical observation and the
-// oracle verdict.
-func (s *sess) apply(kind, id string) (impl, fail, sig string) {
+// oracle verdict. The oracle goes by what the call returned: a RecordRequest / RecordResponse
+// that returned an error recorded nothing, one that returned nil recorded its message.
+func (s *sess) apply(kind, id string, m msg) (impl, fail, sig string) {
 	t := s.t
 	s.t++
 	g := s.g
 	switch kind {
 	case "req":
-		err := s.l.RecordRequest(id, mkReq(id, t))
+		b := mkReqMsg(id, t, m, nil, nil)
+		if !b.ok {
+			s.t--
+			return "bad-op", "", ""
+		}
+		err := s.l.RecordRequest(id, b.req)
+		impl = classify(err, b, m)
 		present := g.find(id) >= 0
 		if err != nil {
-			impl = "err dup"
+			if impl == "err msg" {
+				s.count("req:message-error")
+				if present {
+					s.count("req:message-error-on-live-id")
+				}
+				return impl, "", "" // nothing recorded; later exports must not show it
+			}
 			s.count("req:dup-rejected")
 			if !present {
 				return impl, fmt.Sprintf("request with fresh id %s rejected: %v", id, err), "req:fresh-rejected"
 			}
 			return impl, "", ""
 		}
-		impl = "ok"
 		if present {
 			return impl, fmt.Sprintf("duplicate request id %s accepted", id), "req:dup-accepted"
 		}
 		s.count("req:accepted")
+		if m.fault != 'n' {
+			s.count("req:accepted-unread-faulty-body")
+		}
 		g.live = append(g.live, ent{id, t, -1})
 	case "res":
-		err := s.l.RecordResponse(id, mkRes(t))
-		impl = "ok"
+		b := mkResMsg(t, m, nil, nil)
+		if !b.ok {
+			s.t--
+			return "bad-op", "", ""
+		}
+		err := s.l.RecordResponse(id, b.res)
+		impl = classify(err, b, m)
 		if err != nil {
-			return "err", fmt.Sprintf("RecordResponse(%s): %v", id, err), "res:error"
+			if m.fault == 'n' {
+				return "err", fmt.Sprintf("RecordResponse(%s): %v", id, err), "res:error"
+			}
+			impl = "err msg"
+			s.count("res:message-error")
+			if i := g.find(id); i >= 0 && g.live[i].rs < 0 {
+				s.count("res:message-error-on-pending-id")
+			}
+			return impl, "", "" // nothing recorded: the entry keeps the state it had
+		}
+		if m.fault != 'n' {
+			s.count("res:attached-unread-faulty-body")
 		}
 		if i := g.find(id); i >= 0 {
 			if g.live[i].rs >= 0 {
@@ -240,7 +368,11 @@ func (s *sess) apply(kind, id string) (impl, fail, sig string) {
 			s.count("res:orphan")
 		}
 	case "export":
-		got, bad := readHAR(s.l.Export(), true)
+		hl, bad := s.doExport()
+		var got []ent
+		if bad == "" {
+			got, bad = readHAR(hl, true)
+		}
 		if bad != "" {
 			return "bad-export", bad, "export:malformed"
 		}
@@ -254,7 +386,11 @@ func (s *sess) apply(kind, id string) (impl, fail, sig string) {
 			return impl, f, sg
 		}
 	case "xreset":
-		got, bad := readHAR(s.l.ExportAndReset(), true)
+		hl, bad := s.doExportAndReset()
+		var got []ent
+		if bad == "" {
+			got, bad = readHAR(hl, true)
+		}
 		if bad != "" {
 			return "bad-export", bad, "xreset:malformed"
 		}
@@ -292,7 +428,9 @@ func (s *sess) apply(kind, id string) (impl, fail, sig string) {
 		}
 		g.live = keep
 	case "reset":
-		s.l.Reset()
+		if bad := s.doReset(); bad != "" {
+			return "bad-reset", bad, "reset:malformed"
+		}
 		impl = "ok"
 		if len(g.live) > 0 {
 			s.count("reset:nonempty")
@@ -307,20 +445,51 @@ func (s *sess) apply(kind, id string) (impl, fail, sig string) {
 }
 
 // letterOp decodes the compact alphabet of `seq` (kept in step with Drv/C17.lean charOp).
-func letterOp(c byte) (kind, id string, ok bool) {
+// 1 2 3 = response for a b c whose body reader fails, 4 5 6 = framed request for a b c whose body
+// reader fails, - / + = post-data and body logging off / on.
+func letterOp(c byte) (kind, id string, m msg, ok bool) {
 	switch {
 	case c == 'e':
-		return "export", "", true
+		return "export", "", plainMsg, true
 	case c == 'x':
-		return "xreset", "", true
+		return "xreset", "", plainMsg, true
 	case c == 'r':
-		return "reset", "", true
+		return "reset", "", plainMsg, true
+	case c >= '1' && c <= '3':
+		return "res", string('a' + c - '1'), msg{fault: 'r'}, true
+	case c >= '4' && c <= '6':
+		return "req", string('a' + c - '4'), msg{framed: true, fault: 'r'}, true
+	case c == '-':
+		return "optoff", "", plainMsg, true
+	case c == '+':
+		return "opton", "", plainMsg, true
 	case c >= 'a' && c <= 'z':
-		return "req", string(c), true
+		return "req", string(c), plainMsg, true
 	case c >= 'A' && c <= 'Z':
-		return "res", string(c + 32), true
+		return "res", string(c + 32), plainMsg, true
 	}
-	return "", "", false
+	return "", "", plainMsg, false
+}
+
+func (s *sess) applyOpt(which, form, arg string) core.Result {
+	var cts []string
+	if form == "all" {
+		form += arg
+	} else if arg != "-" {
+		for _, h := range strings.Split(arg, ",") {
+			b, ok := core.Unhex(h)
+			if !ok {
+				return core.Result{Impl: "bad-op"}
+			}
+			cts = append(cts, string(b))
+		}
+	}
+	if !setOpt(s.l, which, form, cts) {
+		return core.Result{Impl: "bad-op"}
+	}
+	s.t++
+	s.count("opt:" + which + "-" + strings.TrimRight(form, "01"))
+	return core.Result{Impl: "ok"}
 }
 
 func runSeq(w string) core.Result {
@@ -328,11 +497,17 @@ func runSeq(w string) core.Result {
 	outs := make([]string, 0, len(w))
 	var fail, sig string
 	for i := 0; i < len(w); i++ {
-		k, id, ok := letterOp(w[i])
+		k, id, m, ok := letterOp(w[i])
 		if !ok {
 			return core.Result{Impl: "bad-op"}
 		}
-		o, f, sg := s.apply(k, id)
+		if k == "optoff" || k == "opton" {
+			s.l.SetOption(har.PostDataLogging(k == "opton"), har.BodyLogging(k == "opton"))
+			s.t++
+			outs = append(outs, "ok")
+			continue
+		}
+		o, f, sg := s.apply(k, id, m)
 		outs = append(outs, o)
 		if f != "" && fail == "" {
 			fail, sig = fmt.Sprintf("history %q, op %d (%s %s): %s", w, i, k, id, f), sg
@@ -365,11 +540,37 @@ func (e *ex) Do(op string) core.Result {
 	case f[0] == "alias" && len(f) == 1:
 		return runAlias()
 	case (f[0] == "req" || f[0] == "res") && len(f) == 2:
-		impl, fail, sig := e.s.apply(f[0], f[1])
+		impl, fail, sig := e.s.apply(f[0], f[1], plainMsg)
 		return core.Result{Impl: impl, Fail: fail, Sig: sig}
+	case f[0] == "reqm" && len(f) == 5 && (f[2] == "0" || f[2] == "1"):
+		ct, ok1 := core.Unhex(f[3])
+		ft, ok2 := parseMsgFault(f[4])
+		if !ok1 || !ok2 {
+			return core.Result{Impl: "bad-op"}
+		}
+		impl, fail, sig := e.s.apply("req", f[1], msg{framed: f[2] == "1", ctype: string(ct), fault: ft})
+		return core.Result{Impl: impl, Fail: fail, Sig: sig}
+	case f[0] == "resm" && len(f) == 4:
+		ct, ok1 := core.Unhex(f[2])
+		ft, ok2 := parseMsgFault(f[3])
+		if !ok1 || !ok2 {
+			return core.Result{Impl: "bad-op"}
+		}
+		impl, fail, sig := e.s.apply("res", f[1], msg{ctype: string(ct), fault: ft})
+		return core.Result{Impl: impl, Fail: fail, Sig: sig}
+	case f[0] == "opt" && (len(f) == 4) && (f[1] == "post" || f[1] == "body"):
+		return e.s.applyOpt(f[1], f[2], f[3])
 	case (f[0] == "export" || f[0] == "xreset" || f[0] == "reset") && len(f) == 1:
-		impl, fail, sig := e.s.apply(f[0], "")
+		impl, fail, sig := e.s.apply(f[0], "", plainMsg)
 		return core.Result{Impl: impl, Fail: fail, Sig: sig}
+	case (f[0] == "hexport" || f[0] == "hxreset" || f[0] == "hreset") && len(f) == 1:
+		// the same operation through the HTTP handlers; the model sees the operation itself
+		e.s.via = true
+		impl, fail, sig := e.s.apply(f[0][1:], "", plainMsg)
+		e.s.via = false
+		return core.Result{Impl: impl, Fail: fail, Sig: sig, ModelOp: f[0][1:]}
+	case f[0] == "hrefused" && len(f) == 2:
+		return e.s.refused(f[1])
 	}
 	return core.Result{Impl: "bad-op"}
 }
@@ -419,17 +620,26 @@ func (P) Nontrivial(ops []string, impl []string) bool {
 		if f[0] == "seq" && len(f) == 2 {
 			var ks []string
 			for j := 0; j < len(f[1]); j++ {
-				k, _, _ := letterOp(f[1][j])
+				k, _, _, _ := letterOp(f[1][j])
 				ks = append(ks, k)
 			}
 			scan(ks, strings.Split(impl[i], "|"))
 			continue
 		}
 		if f[0] == "conc" {
-			nt = nt || strings.HasPrefix(impl[i], "conc ok")
+			nt = nt || strings.HasPrefix(impl[i], "lin ")
 			continue
 		}
-		kinds = append(kinds, f[0])
+		k := f[0]
+		switch k {
+		case "reqm":
+			k = "req"
+		case "hexport", "hxreset", "hreset":
+			k = k[1:]
+		case "hrefused", "alias":
+			continue
+		}
+		kinds = append(kinds, k)
 		outs = append(outs, impl[i])
 	}
 	scan(kinds, outs)
